@@ -45,7 +45,7 @@ def run(ctx):
                 ms = rng.below(10**9)
                 msgs.append((ln, ms))
                 ops += ["msg %d %d" % (ln, ms), "sign", "siginfo", "verify"]
-            jobs.append((("plain", l, seed, hint20), exes[(l, "dim2")], ops, None, 900, msgs))
+            jobs.append((("plain", l, seed, hint20), exes[(l, "dim2")], ops, None, 300, msgs))
         # steering: one key, several forced valuations / backtrackings in one process (commitment reused)
         vm = base.vmax(P[l], "dim2")
         ks = sorted({0, 1, 2 + rng.below(3), 5 + rng.below(3)} | ({8 + rng.below(3), vm} if (l == 1 or not quick) else set()))
@@ -62,7 +62,47 @@ def run(ctx):
             for bt in ([1, 2] if l == 1 else [1]):
                 ops += ["setenv SQI_VERIF_H1_BT %d" % bt, "signsteer %d 32 %d" % (4000, 10**7 * (bt + 1)), "siginfo", "verify"]
                 msgs.append(("bt", bt))
-            jobs.append((("steer", l, seed, part), exes[(l, "dim2")], ops, None, 900 if quick else 3000, msgs))
+            jobs.append((("steer", l, seed, part), exes[(l, "dim2")], ops, None, 300 if quick else 3000, msgs))
+    # rare branches reached by steering (hooks H1 ODD / UV_BRANCH):
+    #  * responses whose content in O0 has an odd part (about 1.2 % of signatures): lattice_content must be divided by the 2-part only
+    #  * ideals for which find_uv re-orders the reduced basis (branches 1, 2, 3; branch 2 is taken by 0.27 % of the ideals),
+    #    for the secret ideal (keygen) and for the commitment ideal (sign)
+    for l in plan:
+        seed = 1 + rng.below(10**9)
+        ops = ["seed %d" % seed, "keygen", "setenv SQI_VERIF_H1_REUSE_COMMIT 1", "setenv SQI_VERIF_H1_ODD 1"]
+        msgs = []
+        for i in range(4 if (l == 1 or not quick) else 2):
+            ops += ["signsteer 6000 32 %d" % (10**6 * (i + 1)), "siginfo", "verify"]
+            msgs.append(("odd", i))
+        jobs.append((("odd", l, seed, 0), exes[(l, "dim2")], ops, None, 300 if quick else 3000, msgs))
+        for k in (1, 2, 3):
+            nk = (3 if k == 2 else 1) if (l == 1 or not quick) else (1 if k == 2 else 0)
+            for rep in range(nk):
+                seed = 1 + rng.below(10**9)
+                ops = ["seed %d" % seed, "setenv SQI_VERIF_UV_BRANCH %d" % k, "keygen", "unsetenv SQI_VERIF_UV_BRANCH"]
+                msgs = []
+                for i in range(2):
+                    ops += ["msg 32 %d" % rng.below(10**9), "sign", "siginfo", "verify"]
+                    msgs.append(("uv-keygen", k))
+                jobs.append((("uvk", l, seed, k), exes[(l, "dim2")], ops, None, 300 if quick else 3000, msgs))
+                seed = 1 + rng.below(10**9)
+                ops = ["seed %d" % seed, "keygen", "setenv SQI_VERIF_UV_BRANCH %d" % k]
+                msgs = []
+                for i in range(2):
+                    ops += ["msg 32 %d" % rng.below(10**9), "sign", "siginfo", "verify"]
+                    msgs.append(("uv-commit", k))
+                jobs.append((("uvc", l, seed, k), exes[(l, "dim2")], ops, None, 300 if quick else 3000, msgs))
+    if quick:
+        # more plain level-1 samples in one process each (many messages per key)
+        for i in range(6):
+            seed = 1 + rng.below(10**9)
+            ops = ["seed %d" % seed, "keygen"]
+            msgs = []
+            for j in range(40):
+                ms = rng.below(10**9)
+                ops += ["msg 32 %d" % ms, "sign", "siginfo", "verify"]
+                msgs.append((32, ms))
+            jobs.append((("plain", 1, seed, False), exes[(1, "dim2")], ops, None, 300, msgs))
     ctx.log("running %d processes (%d sign calls planned)" % (len(jobs), sum(len(j[5]) for j in jobs)))
     res = signlib.run_many([(j[0], j[1], j[2], j[3], j[4]) for j in jobs], workers=16, keep=True)
     hist, nsig, nfail, nunmet = {}, 0, 0, 0
@@ -114,7 +154,9 @@ def run(ctx):
                 note("L%d:v2=%d" % (l, cur["v2"])); note("L%d:bt=%d" % (l, cur["bt"]))
                 if any(int(h) >= 20 for h in str(cur["hints"]).split(",")):
                     note("L%d:hint>=20" % l)
-                if cur["msg"] and cur["msg"][0] not in ("v2", "bt"):
+                if cur["msg"] and isinstance(cur["msg"][0], str) and cur["msg"][0] not in ("v2", "bt"):
+                    note("L%d:%s:%s" % (l, cur["msg"][0], cur["msg"][1] if cur["msg"][0].startswith("uv") else "x"))
+                if cur["msg"] and not isinstance(cur["msg"][0], str):
                     note("len=%d" % cur["msg"][0])
                 if ln != "verify 1":
                     ctx.violation("dim2:L%d:sign-ok-verify-rejects:v2=%d:bt=%d" % (l, cur["v2"], cur["bt"]),
